@@ -34,7 +34,25 @@ var root = func() string {
 	return "/verif"
 }()
 
-const repo = "/repo"
+// repo is the tree under test. VERIF_ALT_REPO (sensitivity experiments only:
+// a scratch worktree with a seeded change) redirects the build there and the
+// evidence to build/alt-evidence, so that /repo and /verif/evidence stay untouched.
+var repo = "/repo"
+
+func altRepo() bool { return repo != "/repo" }
+
+func init() {
+	if a := os.Getenv("VERIF_ALT_REPO"); a != "" {
+		repo = a
+	}
+}
+
+func evidenceDir() string {
+	if altRepo() {
+		return filepath.Join(buildDir(), "alt-evidence")
+	}
+	return filepath.Join(root, "evidence")
+}
 
 func harness() string  { return filepath.Join(root, "harness") }
 func buildDir() string { return filepath.Join(root, "build") }
@@ -136,6 +154,21 @@ func buildVariant(variant string) (string, error) {
 	os.MkdirAll(filepath.Join(buildDir(), "bin"), 0755)
 	out := filepath.Join(buildDir(), "bin", fmt.Sprintf("checks.%s.%d.test", variant, os.Getpid()))
 	args := []string{"test", "-c", "-o", out, "-tags", "verif", "-vet=off", "-overlay", ov}
+	if altRepo() {
+		// a private go.mod whose replace directive points at the alternative tree
+		mod, err := os.ReadFile(filepath.Join(harness(), "go.mod"))
+		if err != nil {
+			return "", err
+		}
+		mf := filepath.Join(buildDir(), fmt.Sprintf("alt.%d.mod", os.Getpid()))
+		if err := os.WriteFile(mf, []byte(strings.Replace(string(mod), "=> /repo", "=> "+repo, 1)), 0644); err != nil {
+			return "", err
+		}
+		sum, _ := os.ReadFile(filepath.Join(harness(), "go.sum"))
+		os.WriteFile(strings.TrimSuffix(mf, ".mod")+".sum", sum, 0644)
+		cleanup = append(cleanup, mf, strings.TrimSuffix(mf, ".mod")+".sum")
+		args = append(args, "-modfile", mf)
+	}
 	if variant == "race" {
 		args = append(args, "-race")
 	}
@@ -635,8 +668,8 @@ func runCheck(id, tier string) int {
 	ev := evidence{Property: id, Tier: tier, Seed: seed, Level: cfg.Level, Coverage: cov, Assumptions: cfg.Assumptions,
 		WallS: time.Since(start).Seconds(), Violations: nviol}
 	eb, _ := json.MarshalIndent(ev, "", " ")
-	os.MkdirAll(filepath.Join(root, "evidence"), 0755)
-	os.WriteFile(filepath.Join(root, "evidence", id+".json"), eb, 0644)
+	os.MkdirAll(evidenceDir(), 0755)
+	os.WriteFile(filepath.Join(evidenceDir(), id+".json"), eb, 0644)
 
 	for _, l := range lines {
 		fmt.Println(l)
